@@ -168,13 +168,22 @@ func (s *sessionMetadatasState) filter(f func(s api.SessionMetadatas) bool) []ap
 	}
 	return out
 }
+// find returns the most recently added live entry accepted by f: when gossip loss has left
+// several live records for one client, the newest session is the one that counts.
 func (s *sessionMetadatasState) find(f func(s api.SessionMetadatas) bool) (api.SessionMetadatas, error) {
+	var found api.SessionMetadatas
+	ok := false
 	for _, md := range s.sessions {
 		if crdt.IsEntryAdded(&md) && f(md) {
-			return md, nil
+			if !ok || md.LastAdded > found.LastAdded || (md.LastAdded == found.LastAdded && md.SessionID > found.SessionID) {
+				found, ok = md, true
+			}
 		}
 	}
-	return api.SessionMetadatas{}, ErrSessionMetadatasNotFound
+	if !ok {
+		return api.SessionMetadatas{}, ErrSessionMetadatasNotFound
+	}
+	return found, nil
 }
 
 func (s *sessionMetadatasState) DeletePeer(peer uint64) error {
